@@ -5,13 +5,13 @@ from concurrent.futures import ProcessPoolExecutor, wait, FIRST_COMPLETED
 _STATE = {}
 
 
-def _engine(crates):
-    key = tuple(crates)
+def _engine(crates, overflow_checks=True):
+    key = tuple(crates) + (("noovf",) if not overflow_checks else ())
     if key not in _STATE:
         from lib import common
         from .mirparse import Program
         from .engine import Engine
-        prog = Program({c: common.mir_dump(c) for c in crates}, common.REPO)
+        prog = Program({c: common.mir_dump(c, overflow_checks) for c in crates}, common.REPO)
         _STATE[key] = prog
     from .engine import Engine
     return Engine(_STATE[key])
@@ -22,9 +22,10 @@ def run_chunk(mod_name, inst_name, prefix, budget_paths, budget_s):
     from .values import Panic, Unsupported, Infeasible, BudgetExceeded, PropertyViolation
     mod = importlib.import_module(mod_name)
     inst = mod.INSTANCES[inst_name]
-    key = ("eng", tuple(inst.crates))
+    ovf = getattr(inst, "overflow_checks", True)
+    key = ("eng", tuple(inst.crates), ovf)
     if key not in _STATE:
-        _STATE[key] = _engine(inst.crates)
+        _STATE[key] = _engine(inst.crates, ovf)
         if hasattr(inst, "setup"):
             inst.setup(_STATE[key])
     e = _STATE[key]
@@ -164,9 +165,10 @@ def run_concrete(mod_name, inst_name, case):
     from .values import Panic
     mod = importlib.import_module(mod_name)
     inst = mod.INSTANCES[inst_name]
-    key = ("eng", tuple(inst.crates))
+    ovf = getattr(inst, "overflow_checks", True)
+    key = ("eng", tuple(inst.crates), ovf)
     if key not in _STATE:
-        _STATE[key] = _engine(inst.crates)
+        _STATE[key] = _engine(inst.crates, ovf)
     e = _STATE[key]
     e.stubs = []; e.call_cache = {}
     if hasattr(inst, "setup"):
